@@ -267,10 +267,12 @@ class Edits:
         its = sorted(enumerate(its), key=lambda p: (p[1][0], p[1][1], p[0]))
         out = []
         cur = base
-        big = [(s, e) for (s, e, t, k, nt) in self.items if k == 'drop' and nt == 'cfg-false']
+        big = [(s, e) for (s, e, t, k, nt) in self.items if (k == 'drop' and nt == 'cfg-false') or nt == 'R9 truncate']
         for _, (s, e, t, kind, note) in its:
-            if note != 'cfg-false' and any(bs <= s and e <= be for (bs, be) in big):
-                continue   # edit lies inside a region removed by E2
+            if note not in ('cfg-false', 'R9 truncate') and any(bs <= s and e <= be for (bs, be) in big):
+                continue   # edit lies inside a region removed by E2 / R9
+            if note == 'cfg-false' and any(bs <= s and e <= be for (bs, be, bt, bk, bn) in self.items if bn == 'R9 truncate'):
+                continue   # cfg region inside the truncated suffix
             if s < cur:
                 raise ExtractError(f'overlapping edits at {s} ({kind} {note})')
             out.append(text[cur - base:s - base])
@@ -687,6 +689,13 @@ def parse_vc(path):
                     if not m2:
                         raise ExtractError(f'{path}: bad #abstract-stmt (need `sha=<hash> /regex/ = stmt`): {s2}')
                     fn.setdefault('abstract_stmts', []).append((m2.group(2), m2.group(3).strip(), m2.group(1)))
+                elif s2.startswith('#truncate-after '):
+                    # R9: `#truncate-after /regex/ = tail-expression`: everything of the body BEHIND the match is
+                    # replaced by one call to an unconstrained assumed function (only a prefix is verified)
+                    m2 = re.match(r'#truncate-after\s+/(.+)/\s*=\s*(.+)$', s2)
+                    if not m2:
+                        raise ExtractError(f'{path}: bad #truncate-after (need `/regex/ = expr`): {s2}')
+                    fn['truncate'] = (m2.group(1), m2.group(2).strip())
                 elif s2.startswith('#abstract-expr '):
                     # R7e: `#abstract-expr sha=<hash> /regex/ = replacement-expression`
                     m2 = re.match(r'#abstract-expr\s+sha=(\w+)\s+/(.+)/\s*=\s*(.+)$', s2)
@@ -851,6 +860,35 @@ def extract_fn(repo, spec, features):
         edits.add(T[a].start, T[e].start, ' ' + repl, 'rewrite', 'R7 abstract stmt')
         log.append({'step': 'R7', 'line': sf.line_of(T[a].start), 'abstracted_unverified': txt.replace(' ', '')[:400], 'replaced_by': repl})
         dropped.append((T[a].start, T[e].start))
+
+    # ---- R9: body truncation.  The statements behind the (unique) match of the regex, up to the end of the
+    # body, are dropped and replaced by ONE tail call to an assumed function without postcondition that takes
+    # `self` and the parameters: whatever the dropped suffix does is allowed.  Only properties of the PREFIX
+    # (early-return guards) can be proved this way; logged with the number of tokens dropped.
+    if spec.get('truncate'):
+        rx, tail = spec['truncate']
+        btxt_lo = T[bo].end
+        btxt = sf.text[btxt_lo:T[bc].start]
+        ms = list(re.finditer(rx, btxt))
+        if len(ms) != 1:
+            raise ExtractError(f'lost anchor: /{rx}/ matches {len(ms)} times in {spec["name"]}')
+        cut = btxt_lo + ms[0].end()
+        # the cut must sit at top level of the body (brace depth 0 relative to the body)
+        depth = 0
+        for j in range(bo + 1, bc):
+            if T[j].start >= cut:
+                break
+            if T[j].kind == 'punct' and T[j].text in '([{':
+                depth += 1
+            elif T[j].kind == 'punct' and T[j].text in ')]}':
+                depth -= 1
+        if depth != 0:
+            raise ExtractError(f'R9 refused: /{rx}/ does not end at the top level of the body of {spec["name"]}')
+        ndrop = sum(1 for j in range(bo + 1, bc) if T[j].start >= cut)
+        edits.add(cut, T[bc].start, '\n        ' + tail + '\n    ', 'rewrite', 'R9 truncate')
+        dropped.append((cut, T[bc].start))
+        log.append({'step': 'R9', 'line': sf.line_of(cut), 'dropped_tokens': ndrop,
+                    'note': 'body suffix replaced by an unconstrained assumed call: ' + tail})
 
     # ---- R7e: expression abstraction.  A contiguous token range of the body whose compact text (tokens
     # joined without spaces) is matched EXACTLY by the regex is replaced by a call to an assumed-contract
